@@ -6,3 +6,97 @@ From Coq Require Import List NArith Bool.
 From PV Require Import C38.Model C38.ProofsIndex C38.ProofsRemove C38.ProofsPage C38.ProofsDoc.
 Import ListNotations.
 Open Scope N_scope.
+
+(* Notation used below (all defined in ProofsRemove.v / ProofsPage.v / ProofsDoc.v):
+   wm_ok mtx x y      the watermark bytes are what wmContent prints: six "%.5f" numbers (digits . - + blank)
+                      and resource names GS<x>, Fm<y> with x, y non-empty decimal strings;
+   wmbb mtx x y       = wm_content mtx ("GS"++x) ("Fm"++y);
+   clean_page ct      no stream of the page contains pdfcpu's watermark marker;
+   wrap_equiv o n     n = ws o ws  or  n = ws q ws+ o ws+ Q ws  (ws = white space only): equal up to white
+                      space and one enclosing save/restore pair, the original bytes surviving verbatim;
+   page_bytes ct      the page's content as a consumer reads it (array streams joined by a newline). *)
+
+(* 1. One page, stamp (on top) or watermark (background), no/single/multiple content streams:
+      removal succeeds, finds the watermark, reports exactly the two resource names that were added,
+      leaves the original content up to white space and one q/Q pair, and no artifact in any stream. *)
+Theorem C38_page_remove_undoes_add : forall mtx x y onTop ct,
+  wm_ok mtx x y = true -> clean_page ct = true ->
+  exists ct',
+    remove_page (add_page onTop None (wmbb mtx x y) ct)
+      = (if nonempty_page ct then POk true ct' [id_gs ++ x] [id_fm ++ y] else POk false ct' [] [])
+    /\ wrap_equiv (page_bytes ct) (page_bytes ct')
+    /\ clean_page ct' = true
+    /\ detect_page ct' = false
+    /\ remove_page ct' = POk false ct' [] [].
+Proof. exact page_remove_undoes_add. Qed.
+Print Assumptions C38_page_remove_undoes_add.
+
+(* 2. Detection on a page: true after a watermark was added (whatever the previous content),
+      false on a page without artifacts. *)
+Theorem C38_page_detect : forall mtx x y onTop ct,
+  (nonempty_page ct = true -> detect_page (add_page onTop None (wmbb mtx x y) ct) = true)
+  /\ (clean_page ct = true -> detect_page ct = false).
+Proof. exact page_detect. Qed.
+Print Assumptions C38_page_detect.
+
+(* 3. removeArtifacts on ARBITRARY bytes: the loop terminates (the model never runs out of fuel),
+      removing twice = removing once, and what is left has no marker or only a marker without EMC. *)
+Theorem C38_remove_total_idempotent : forall s,
+  exists r, remove_artifacts s = Some r
+    /\ remove_artifacts (rm_content r)
+       = Some {| rm_found := false; rm_content := rm_content r; rm_gs := []; rm_fm := [] |}
+    /\ (noocc marker (rm_content r)
+        \/ exists a b, rm_content r = a ++ b /\ prefixb marker b = true /\ noocc emc b).
+Proof. exact remove_total_idempotent. Qed.
+Print Assumptions C38_remove_total_idempotent.
+
+(* 4. Document level.  FULL STATEMENT (not provable, see C38_remove_all_pages_refuted):
+        for every artifact-free document, every add selection sela and every removal selection selr
+        covering sela, RemoveWatermarks (AddWatermarks d) succeeds, restores every page up to
+        wrap_equiv, and DetectWatermarks reports none.
+      PROVED: the same under `pre`, which adds exactly the complement of the two defect classes:
+        every page selected for removal that did not receive a watermark has its own /Resources
+        entry and a /Contents entry.  (If no selected page can take a watermark, removal reports
+        "no watermark", which is correct.) *)
+Theorem C38_doc_remove_undoes_add_partial : forall mtx x y onTop d sela selr,
+  wm_ok mtx x y = true -> pre sela selr (d_pages d) = true ->
+  if any_sel sela (d_pages d) then
+    exists d2, remove_doc selr (add_doc onTop (wmbb mtx x y) sela d) = DOk d2
+               /\ Forall2 page_rel (d_pages d) (d_pages d2)
+               /\ detect_doc d2 = false
+  else remove_doc selr (add_doc onTop (wmbb mtx x y) sela d) = DErr ENoWatermark.
+Proof. exact doc_remove_undoes_add. Qed.
+Print Assumptions C38_doc_remove_undoes_add_partial.
+
+(* 5. The defect: after watermarking page 1 only, "remove watermarks" over all pages fails — and leaves
+      the watermark in place — when page 2 is blank (no /Contents) or inherits its /Resources. *)
+Theorem C38_remove_all_pages_refuted :
+  (forallb (fun p => clean_page (pg_ct p)) (d_pages doc_blank) = true /\
+   remove_doc [true; true] (add_doc true wm0 [true; false] doc_blank) = DErr ENoContents /\
+   detect_doc (add_doc true wm0 [true; false] doc_blank) = true)
+  /\
+  (forallb (fun p => clean_page (pg_ct p)) (d_pages doc_inherit) = true /\
+   remove_doc [true; true] (add_doc false wm0 [true; false] doc_inherit) = DErr ENoResources /\
+   detect_doc (add_doc false wm0 [true; false] doc_inherit) = true).
+Proof. exact remove_all_pages_refuted. Qed.
+Print Assumptions C38_remove_all_pages_refuted.
+
+(* 6. Detection on documents: none on an artifact-free document; after AddWatermarks exactly when some
+      selected page could take a watermark. *)
+Theorem C38_doc_detect : forall mtx x y onTop d sel,
+  forallb (fun p => clean_page (pg_ct p)) (d_pages d) = true ->
+  detect_doc d = false /\ detect_doc (add_doc onTop (wmbb mtx x y) sel d) = any_sel sel (d_pages d).
+Proof. exact doc_detect. Qed.
+Print Assumptions C38_doc_detect.
+
+(* non-vacuity: the hypotheses are satisfiable, both placements, single and multi stream *)
+Example C38_nonvacuous :
+  let mtx := [49; 46; 48; 32; 45; 48; 46; 53] in
+  wm_ok mtx [49; 50] [55] = true
+  /\ clean_page (CArray [[113]; [110]; [81]]) = true
+  /\ nonempty_page (CArray [[113]; [110]; [81]]) = true
+  /\ pre [true; false; true] [true; true; true]
+       [ {| pg_res := true; pg_ct := CStream [110] |}; {| pg_res := true; pg_ct := CArray [[110]] |};
+         {| pg_res := false; pg_ct := CNone |} ] = true
+  /\ wm_ok [69] [49] [49] = false.
+Proof. vm_compute. repeat split. Qed.
